@@ -589,6 +589,8 @@ class Origins:
         if res is not None:
             if res.get("kind") == "virtual":
                 return "virtual " + res["def"]
+            if not res.get("key") and res.get("crate") in WORKSPACE and res.get("def") in self.prog.bodies:
+                return res["def"]
             return res.get("key") or res["full"]
         return f["full"]
 
